@@ -31,6 +31,7 @@ theorem stepCore_refused_unchanged (s : N) (op : Op) (h : (stepCore s op).2 ≠ 
     all_goals simp_all
   | setDefault p => simp [stepCore] at h
   | createIn p c n i => simp [stepCore] at h
+  | clone e off => simp [stepCore] at h
 
 theorem tryAll_refused (s0 s : N) (ops : List Op) (h : (tryAll s0 s ops).2 ≠ .ok) : (tryAll s0 s ops).1 = s0 := by
   induction ops generalizing s with
@@ -49,6 +50,7 @@ theorem tryAll_refused (s0 s : N) (ops : List Op) (h : (tryAll s0 s ops).2 ≠ .
 theorem names_refused_unchanged (s : N) (op : Op) (h : (step s op).2 ≠ .ok) : (step s op).1 = s := by
   cases op with
   | createIn p c n i => exact tryAll_refused s s _ h
+  | clone e off => exact tryAll_refused s s _ h
   | create e => exact stepCore_refused_unchanged s _ h
   | attach p c => exact stepCore_refused_unchanged s _ h
   | detach p c => exact stepCore_refused_unchanged s _ h
